@@ -15,7 +15,8 @@ CODES = {1: "the model cannot print the description (it predicts a panic in rpcT
          4: "the verified recogniser rejects the real .proto tokens",
          5: "a message of the real .proto has invalid or repeated numbers / names",
          6: "a main-stream message is outside the hypotheses of tags_unique_partial",
-         7: "a message of a design goa accepted is refused by the model of goa's field number validation"}
+         7: "a message of a design goa accepted is refused by the model of goa's field number validation",
+         8: "a main-stream attribute name is not letter-led (hypothesis of attribute_names_become_identifiers)"}
 
 
 def run(tier, replay=None):
